@@ -252,7 +252,8 @@ func C10(tier string) int {
 	syms := []string{"s", "i", "nn", "f", "b", "t", "id", "boss", "tags.k", "boss.s", "boss.t", "roles", "reports", "places",
 		"anyOf(roles)", "allOf(roles)", "anyOf(reports.i)", "allOf(reports.t)", "anyOf(reports.b)", "anyOf(reports.tags.k)", "anyOf(places.name)", "anyOf(reports)",
 		"count(roles)", "count(reports)", "count(reports.s)", "count(places.name)", "count(reports.roles)", "count(reports.reports)", "count(reports.boss)", "count(from reports where s = \"a\")", "count(from places where name = \"x\")", "anyOf(s)", "count(s)", "nosuch", "anyOf(nosuch)"}
-	lits := []string{`"a"`, `""`, "5", "-5", "4.5", "1e3", "1e999", "99999999999999999999", "true", "FALSE", "null", "datetime(2020-01-02T03:04:05Z)", "datetime(2020-13-02T03:04:05Z)"}
+	lits := []string{`"a"`, `""`, "5", "-5", "4.5", "1e3", "1E+3", "-0", "0.0", "5e-1", "-4.5e2", "1e999", "99999999999999999999",
+		"datetime(2020-01-02T03:04:05.123456789Z)", "datetime(2020-01-02T03:04:05+01:30)", "datetime(2020-01-02t03:04:05z)", "datetime( 2020-01-02T03:04:05-00:00 )", "datetime(2020-01-02T24:00:00Z)", "true", "FALSE", "null", "datetime(2020-01-02T03:04:05Z)", "datetime(2020-13-02T03:04:05Z)"}
 	ops := []string{"=", "!=", "<", "<=", ">", ">=", "contains", "not contains", "icontains", "not icontains"}
 	var sentences []string
 	for _, sy := range syms {
@@ -261,7 +262,8 @@ func C10(tier string) int {
 				sentences = append(sentences, sy+" "+op+" "+l)
 			}
 		}
-		for _, arr := range []string{`["a"]`, `["a", "b"]`, `[5]`, `[5, 4.5]`, `[4.5]`, `[datetime(2020-01-02T03:04:05Z)]`, `[]`, `["a", 5]`, `[true]`,
+		for _, arr := range []string{`["a"]`, `["a", "b"]`, `[5]`, `[5, 4.5]`, `[4.5]`, `[datetime(2020-01-02T03:04:05Z)]`, `[]`, `["a", 5]`, `[true]`, `["a", "b", "a"]`, `[5, 5, 6]`, `[4.5, 5, -1e2]`,
+			`[datetime(2020-01-02T03:04:05Z), datetime(2020-01-02T03:04:05+00:00), datetime(2021-01-02T03:04:05.5Z)]`, `[ "a" ,"b"]`,
 			// literals that lex but cannot be converted, in every position of an array
 			`[5, 1e999]`, `[1e999, 5]`, `[5, 99999999999999999999]`, `[99999999999999999999]`, `[4.5, 1e999, 5]`,
 			`[datetime(2020-01-02T03:04:05Z), datetime(2020-13-02T03:04:05Z)]`, `[datetime(2020-13-02T03:04:05Z), datetime(2020-01-02T03:04:05Z)]`, `[datetime(2020-02-30T00:00:00Z)]`} {
@@ -357,6 +359,19 @@ func C10(tier string) int {
 				if env.check(rep, "mutation", sb.String()) {
 					rep.Distinct(sb.String())
 				}
+			}
+		}
+	}
+
+	// ---- (4b) characters that Go and Unicode call white space but the grammar does not (and those it does), in front
+	// of, behind and inside valid sentences
+	edge := []string{" ", "\t", "\n", "\r", "\f", "\v", "\u00a0", "\u0085", "\u1680", "\u2000", "\u2028", "\u2029", "\u202f", "\u205f", "\u3000", "\ufeff", "\x00", "\x1f", "\x7f"}
+	for _, v := range append(append([]string{}, valid...), "true", "skip 1", `s = "a"`) {
+		for _, e := range edge {
+			for _, in := range []string{e + v, v + e, e + v + e, " " + e + v, v + e + " ", strings.Replace(v, " ", e, 1), strings.Replace(v, " ", " "+e, 1)} {
+				rep.Count("evaluations", 1)
+				rep.Count("whitespace_affixes", 1)
+				env.check(rep, "affix", in)
 			}
 		}
 	}
